@@ -20,6 +20,8 @@ package main
 //   kill <w>              halt worker number w (no deregistration)
 //   restart <fail>        replace halted workers, expire heartbeats, re-register everybody, wait for Running;
 //                         fail>0: the fail-th Deploy request of the redeploy is answered "unreachable" once
+//   restartpub <j>        like restart 0, but the j-th parked job-checkpoint write completes while the operators of the new
+//                         assembly are deploying (between the job's choice of the checkpoint and the splitter's start)
 //   killjob <n> <fresh>   the job process dies; a new job (worker count n) starts on the same storage;
 //                         fresh=1: all workers die too and are replaced, fresh=0: the live workers re-register
 //   probe                 feed one record per key, wait (the key states handed to these invocations are the final
@@ -164,7 +166,11 @@ func (w *c01World) publish(j int, grace time.Duration) bool {
 				// the newest published one is current; an older one (overlapping publication) is at least recorded
 				if cur, has := job.VerifStoreC15().VerifCurrentIDC15(); has && cur >= pw.id {
 					w.mu.Lock()
-					w.log("p:%d", pw.id)
+					if w.deployGate {
+						w.deferPub = append(w.deferPub, fmt.Sprintf("p:%d", pw.id))
+					} else {
+						w.log("p:%d", pw.id)
+					}
 					w.mu.Unlock()
 					return true
 				}
@@ -287,6 +293,65 @@ func (w *c01World) restart(fail int) string {
 	return w.take()
 }
 
+// restartPub: like restart, but the publication of the parked job checkpoint completes while the operators of the
+// new assembly are being deployed (after job.start chose the checkpoint to restore, before the source splitter starts)
+func (w *c01World) restartPub(j int) string {
+	w.mu.Lock()
+	live := 0
+	for _, wk := range w.workers {
+		if !wk.killed.Load() {
+			live++
+		}
+	}
+	need := w.cfg.n - live
+	after := w.dep
+	clk := w.jclk
+	n := w.cfg.n
+	w.deployGate = true
+	w.deployParked = 0
+	w.deployGo = make(chan struct{})
+	gate := w.deployGo
+	w.mu.Unlock()
+	for i := 0; i < need; i++ {
+		w.newWorker()
+	}
+	time.Sleep(time.Millisecond)
+	clk.advance((c01Heartbeat + 1) * time.Second)
+	w.heartbeat()
+	deadline := time.Now().Add(c01Grace)
+	parked := false
+	for time.Now().Before(deadline) {
+		w.mu.Lock()
+		parked = w.deployParked >= n
+		w.mu.Unlock()
+		if parked {
+			break
+		}
+		time.Sleep(200 * time.Microsecond)
+	}
+	res := ""
+	if !parked {
+		res = " noparked"
+	} else if !w.publish(j, c01GateGrace) {
+		res = " none"
+	}
+	w.mu.Lock()
+	w.deployGate = false
+	w.mu.Unlock()
+	close(gate)
+	if !w.waitRunning(after) {
+		// a publication logged as deferred must not be lost when the deployment did not complete
+		w.mu.Lock()
+		for _, t := range w.deferPub {
+			w.log("%s", t)
+		}
+		w.deferPub = nil
+		w.mu.Unlock()
+		return w.take() + res + " NOTRUNNING"
+	}
+	return w.take() + res
+}
+
 func (w *c01World) killJob(n int, fresh bool) string {
 	w.mu.Lock()
 	w.jobDown = true
@@ -363,7 +428,21 @@ func c01Impl(c lib.Case) []string {
 		for k, v := range w.notes {
 			c01Count("note:"+k, v)
 		}
+		reordered, full := w.reordered, strings.Join(w.full, " ")
 		w.mu.Unlock()
+		// an operator handled records of one split out of index order although no live node was redeployed:
+		// keep the raw event log of this run so that it can be chased (it does not reproduce on demand)
+		if reordered != "" && !strings.Contains(full, " L:") {
+			c01Count("reordering_seen_in_fresh_deployment", 1)
+			dir := c01VerifRoot() + "/corpus/C01"
+			if os.MkdirAll(dir, 0o755) == nil {
+				if ents, _ := os.ReadDir(dir); len(ents) < 20 {
+					b, _ := json.MarshalIndent(map[string]any{"note": "raw event log of a run with a within-channel reordering; first out-of-order handler invocation: " + reordered,
+						"header_line": c.Header, "ops": c.Ops, "events": full}, "", " ")
+					os.WriteFile(fmt.Sprintf("%s/reorder-%s-%d.trace", dir, c.Hash(), time.Now().UnixNano()%1000000), b, 0o644)
+				}
+			}
+		}
 	}()
 	out := make([]string, 0, len(c.Ops))
 	for _, line := range c.Ops {
@@ -420,6 +499,8 @@ func c01Impl(c lib.Case) []string {
 			o = w.kill(atoi(a[1]))
 		case len(a) == 2 && a[0] == "restart":
 			o = w.restart(atoi(a[1]))
+		case len(a) == 2 && a[0] == "restartpub":
+			o = w.restartPub(atoi(a[1]))
 		case len(a) == 3 && a[0] == "killjob":
 			o = w.killJob(atoi(a[1]), a[2] == "1")
 		case len(a) == 1 && a[0] == "probe":
@@ -545,6 +626,11 @@ func (g *c01Gen) interruptedRound() {
 		g.add("pub 0") // the job (still alive) finishes the publication after the workers died
 	}
 	g.refill()
+	if point == 4 && g.r.Chance(2, 3) {
+		// the publication of the complete checkpoint finishes while the restart is deploying the operators
+		g.add("restartpub 0")
+		return
+	}
 	g.add("restart 0")
 	if point >= 4 && g.r.Bool() {
 		g.add("pub 0") // a checkpoint of the previous deployment becomes current after the restart
@@ -692,6 +778,13 @@ func c01Regressions() []lib.Case {
 		{Header: c01Header(1, 8, 1, 2, 2, 4, 0), Tags: []string{"D41"}, Ops: []string{
 			"boot", "feed 0 0,1,2,3,0,1", "wait", "ckpt 1", "killjob 2 1", "feed 0 1,2,3,0", "wait", "ckpt 2", "feed 0 0,1", "ckpt 3",
 			"wait", "feed 0 2,3", "wait", "kill 1", "kill 2", "restart 0", "wait", "probe", "end"}},
+		// checkpoint 2 is complete when all workers die; its publication finishes while the restart deploys the
+		// operators: state and source positions must come from the same checkpoint (1)
+		{Header: c01Header(2, 8, 2, 2, 2, 4, 0), Tags: []string{"publish-during-deploy"}, Ops: []string{
+			"boot", "feed 0 0,1,2,3,0", "feed 1 3,2,1", "wait", "ckpt 1", "feed 0 1,2,2", "feed 1 0,0,3", "wait", "tick", "rack 0", "rack 0",
+			"oack 0", "oack 0", "kill 0", "kill 1", "restartpub 0", "wait", "feed 0 3", "wait", "kill 2", "kill 3", "restart 0", "wait", "probe", "end"}},
+		{Header: c01Header(1, 8, 1, 1, 1, 2, 0), Tags: []string{"publish-during-deploy"}, Ops: []string{
+			"boot", "feed 0 0,1,0,1", "wait", "tick", "rack 0", "oack 0", "kill 0", "restartpub 0", "wait", "probe", "end"}},
 		// rescale 2 → 3 → 1 → 2 through job restarts
 		{Header: c01Header(2, 8, 3, 2, 2, 5, 0), Tags: []string{"rescale"}, Ops: []string{
 			"boot", "feed 0 0,1,2,3,4,0,1", "feed 1 4,3,2,1,0", "feed 2 2,2,3,3", "wait", "ckpt 3", "feed 0 1,1", "feed 1 2,2", "wait",
